@@ -666,6 +666,16 @@ func checkC09(c *core.Ctx) {
 		{[]string{"write", "parse"}, "- chord: {degree: \"1\", name: m7, base: ~}\n  values: [1]\n"},
 		{[]string{"info", "attr", "describe", "-t", "Major3", "-r", "D♭"}, ""}, {[]string{"info", "attr", "describe", "-t", "Major3", "-r", "xF"}, ""}, {[]string{"info", "attr", "describe", "-t", "Major3", "-r", "C##"}, ""}, {[]string{"info", "attr", "describe", "-t", "Major3", "-r", ""}, ""},
 	}
+	// --port values that look like numbers
+	for _, v := range []string{"0", "1", "+1", "-1", "-7", "2", "00", "1e0", "9223372036854775807", "-9223372036854775808"} {
+		edges = append(edges, struct {
+			args  []string
+			stdin string
+		}{[]string{"write", "play", "--port", v}, "- chord: {degree: \"1\", name: m7}\n  values: [1]\n"}, struct {
+			args  []string
+			stdin string
+		}{[]string{"write", "play", "-p=" + v}, rest})
+	}
 	// multi-byte characters in values that are walked character by character (-c, -r, -t, --key)
 	for _, v := range []string{"éd", "d♯s", "ｐｓ", "рd", "d\u0301d", "ds😀p", "\xffd", "d\xe2\x99"} {
 		for _, a := range [][]string{{"info", "key", "conv", "--key", "D", "-c", v}, {"info", "key", "conv", "-c", v}, {"info", "key", "describe", "--key", v}, {"info", "attr", "describe", "-t", "Major3", "-r", v}, {"info", "chord", "describe", "-t", v}, {"write", "conv", "-c", v}} {
@@ -700,6 +710,31 @@ func checkC09(c *core.Ctx) {
 				args  []string
 				stdin string
 			}{a, "- chord: {degree: \"1\", name: zlong44}\n  values: [1]\n"})
+		}
+	}
+	// chords with more notes than MIDI has keys (the same attributes listed over and over; a long chain of extends):
+	// a consistent dictionary, so the piece is played or refused - not a crash
+	{
+		var many []string
+		for k := 0; k < 36; k++ {
+			many = append(many, "Perfect1", "Major3", "Perfect5", "Minor7")
+		}
+		cs := []userChord{{Name: "Zmany", Display: "zmany", Attrs: many}, {Name: "Zexact", Display: "zexact", Attrs: many[:127]}}
+		for k := 0; k < 50; k++ {
+			uc := userChord{Name: fmt.Sprintf("Zwide%d", k), Display: fmt.Sprintf("zwide%d", k), Attrs: []string{"Perfect1", "Major3", "Perfect5"}}
+			if k > 0 {
+				uc.Extends = fmt.Sprintf("Zwide%d", k-1)
+			}
+			cs = append(cs, uc)
+		}
+		wide := c.Scratch.File("wide-chords.yml", chordsYAML(cs))
+		for _, sym := range []string{"zmany", "zexact", "zwide49", "zwide42"} {
+			for _, a := range [][]string{{"write", "--chord", wide}, {"write", "event", "--track", "3", "--chord", wide}, {"info", "chord", "describe", "-t", "C_" + sym, "--chord", wide}} {
+				edges = append(edges, struct {
+					args  []string
+					stdin string
+				}{a, "- chord: {degree: \"1\", name: " + sym + "}\n  values: [1]\n"})
+			}
 		}
 	}
 	// the input ends in a read error instead of an end of input (complete piece, then EIO): that run has failed
@@ -1077,6 +1112,19 @@ func nonsenseCatalogue(c *core.Ctx) {
 			if res.OK() {
 				fail("accepted", fmt.Sprintf("`crd %s` accepts it", strings.Join(nc.argv, " ")), res)
 				return
+			}
+			if len(nc.argv) == 1 && nc.argv[0] == "write" {
+				// the same with the standard output on a terminal: nonsense is nonsense wherever the bytes would go
+				rt := c.Crd.Run(runner.Opt{Stdin: []byte(nc.payload), StdoutKind: "pty"}, "write")
+				if rt.StartErr == nil {
+					if !judgeOutcome(c, "nonsense", i, "write (standard output on a terminal)", rt, det) {
+						return
+					}
+					if rt.OK() {
+						fail("accepted-on-terminal", "`crd write` with its standard output on a terminal accepts it (exit 0)", rt)
+						return
+					}
+				}
 			}
 			if outPath != "" {
 				if b, err := os.ReadFile(outPath); err == nil && isSMF(b) {
